@@ -46,7 +46,7 @@ def unit_pool(units, rnd, n):
     pool = [U("au::%s{}" % u.name, u.dim, u.mag) for u in units]
     groups = {}
     for u in units:
-        groups.setdefault((model.key(u.dim), model.key(u.mag), u.has_origin), []).append(u.name)
+        groups.setdefault((model.key(u.dim), model.key(u.mag), u.has_origin, u.tiebreak), []).append(u.name)
     NAMED_COLLISIONS.clear()
     for gi, names in enumerate(groups.values()):
         if len(names) > 1 and not groups_have_origin(units, names):
@@ -85,7 +85,7 @@ def is_unitless(dim, mag):
 def type_items(pool, extra, rnd, thorough):
     items = []
     pairs = []
-    special = [("au::Hertz{}", "au::Seconds{}"), ("au::Kilo<au::Hertz>{}", "au::Milli<au::Seconds>{}"), ("au::Hertz{}", "au::Milli<au::Seconds>{}"),
+    special = [("au::Hertz{}", "au::Becquerel{}"), ("au::Hertz{}", "au::Seconds{}"), ("au::Kilo<au::Hertz>{}", "au::Milli<au::Seconds>{}"), ("au::Hertz{}", "au::Milli<au::Seconds>{}"),
                ("au::Percent{}", "au::pow<-1>(au::Percent{})"), ("au::Radians{}", "au::pow<-1>(au::Radians{})"),
                ("(au::Seconds{} * au::mag<3>() / au::mag<7>())", "(au::Hertz{} * au::mag<7>() / au::mag<3>())"),
                ("au::Meters{}", "au::Meters{}"), ("au::Unos{}", "au::Unos{}"), ("au::Feet{}", "au::Inches{}")]
@@ -179,6 +179,27 @@ def type_items(pool, extra, rnd, thorough):
             lines.append(unit_assert("typename T_inv::Unit", model.inv(ua.dim), model.inv(ua.mag), "inv"))
             items.append(witness.Item("powers:%s|%s" % (ua.expr, r), "\n".join(lines), "accept", None,
                                       dict(desc="unit and rep of int_pow<-4..4>, sqrt, cbrt, 1/q for %s (%s)" % (ua.expr, r))))
+    return items
+
+
+def all_pair_items(units, thorough):
+    """Every PAIR of library units ("all pairs of units from the library"): the product and the
+    quotient of two quantities exist and carry the model's dimension and magnitude (or collapse).
+    One witness per first unit; a pair the library cannot order (two named units that tie on every
+    criterion) is a hard error inside it and is reported with the pair."""
+    items = []
+    for i, a in enumerate(units):
+        lines = ["constexpr auto qa = au::make_quantity<au::%s>(6.0);" % a.name]
+        others = units[i:]
+        for j, b in enumerate(others):
+            lines.append("constexpr auto qb%d = au::make_quantity<au::%s>(3.0);" % (j, b.name))
+            for opn, op, dim, mag in (("m", "*", model.mul(a.dim, b.dim), model.mul(a.mag, b.mag)), ("d", "/", model.div(a.dim, b.dim), model.div(a.mag, b.mag))):
+                if is_unitless(dim, mag):
+                    lines.append("static_assert(std::is_same<decltype(qa %s qb%d), const double>::value || std::is_same<decltype(qa %s qb%d), double>::value, \"%s %s %s collapses to a raw number\");" % (op, j, op, j, a.name, op, b.name))
+                else:
+                    lines.append(unit_assert("typename decltype(qa %s qb%d)::Unit" % (op, j), dim, mag, "%s%d" % (opn, j)))
+        items.append(witness.Item("allpairs:%s" % a.name, "\n".join(lines), "accept", None,
+                                  dict(desc="product and quotient of %s with each of the %d library units from it onwards" % (a.name, len(others)))))
     return items
 
 
@@ -377,7 +398,7 @@ def body(ctx):
     prelude = witness.DEFAULT_PRELUDE + USING + hdrs
     atoms.readout_units(ctx, units, prelude)
     pool, extra = unit_pool(units, rnd, 0)
-    items = type_items(pool, extra, rnd, ctx.thorough) + guard_items(rnd, ctx.thorough)
+    items = type_items(pool, extra, rnd, ctx.thorough) + guard_items(rnd, ctx.thorough) + all_pair_items(units, ctx.thorough)
     results, stats = witness.judge(ctx, items, configs, prelude=prelude, batch=40, tag="c14")
     nbad = witness.report_mismatches(ctx, items, results, prelude=prelude)
     ctx.log("W: %d items, %d mismatching" % (len(items), nbad))
